@@ -28,7 +28,7 @@ RULE = (
 )
 ASSUMPTIONS = [
     "the propagation reference encodes: ConvContract reaches target t iff some present input type s has a filter of type (k_s+k_t, p_s+p_t) in the bank; norm/nonlinearity/pool keep the type set; residual sums and skip concats need equal type sets",
-    "L2: d in {2,3}; depth<=2; size<=2; num_conv<=2; deviation bound quick 2 (d=2 and d=3), thorough 4 (d=3: 3)",
+    "L2: d in {2,3}; depth<=2; size<=2; num_conv<=2; deviation bound quick 2 (d=2 and d=3), thorough 3 (d=3: 2)",
     "values are not compared here (C07/C11/C14 do that); only types, order, channels, extents, D, flags and component placement",
 ]
 
@@ -63,7 +63,7 @@ def _dims(d):
 
 
 def bounds(tier):
-    return {"dims": _dims(2), "deviation_bound": {"quick": {"d2": 2, "d3": 2}, "thorough": {"d2": 4, "d3": 3}}[tier], "centres": ["equivariant ResNet (default)", "conventional U-Net"], "wrappers": ["ModelWrapper(identity) eager, jit, vmap", "GroupAverage", "Climate1D"]}
+    return {"dims": _dims(2), "deviation_bound": {"quick": {"d2": 2, "d3": 2}, "thorough": {"d2": 3, "d3": 2}}[tier], "centres": ["equivariant ResNet (default)", "conventional U-Net"], "wrappers": ["ModelWrapper(identity) eager, jit, vmap", "GroupAverage", "Climate1D"]}
 
 
 def _normalise(c):
@@ -85,7 +85,7 @@ def _normalise(c):
 
 
 def cases(tier, seed):
-    plan = {"quick": {2: 2, 3: 2}, "thorough": {2: 4, 3: 3}}[tier]
+    plan = {"quick": {2: 2, 3: 2}, "thorough": {2: 3, 3: 2}}[tier]
     out = []
     for d in (2, 3):
         for cell, dev in explore.cells(_dims(d), plan[d]):
